@@ -2359,10 +2359,10 @@ DLLIMPORT int cfg_setstr(cfg_t *cfg, const char *name, const char *value)
 
 static int cfg_addlist_internal(cfg_opt_t *opt, unsigned int nvalues, va_list ap)
 {
-	int result = CFG_FAIL;
+	int result = CFG_SUCCESS;
 	unsigned int i;
 
-	for (i = 0; i < nvalues; i++) {
+	for (i = 0; i < nvalues && result == CFG_SUCCESS; i++) {
 		switch (opt->type) {
 		case CFGT_INT:
 			result = cfg_opt_setnint(opt, va_arg(ap, int), opt->nvalues);
@@ -2394,6 +2394,7 @@ static int cfg_addlist_internal(cfg_opt_t *opt, unsigned int nvalues, va_list ap
 DLLIMPORT int cfg_setlist(cfg_t *cfg, const char *name, unsigned int nvalues, ...)
 {
 	va_list ap;
+	int result;
 	cfg_opt_t *opt = cfg_getopt(cfg, name);
 
 	if (!opt || !is_set(CFGF_LIST, opt->flags)) {
@@ -2404,15 +2405,16 @@ DLLIMPORT int cfg_setlist(cfg_t *cfg, const char *name, unsigned int nvalues, ..
 	cfg_free_value(opt);
 	opt->flags |= CFGF_MODIFIED;
 	va_start(ap, nvalues);
-	cfg_addlist_internal(opt, nvalues, ap);
+	result = cfg_addlist_internal(opt, nvalues, ap);
 	va_end(ap);
 
-	return CFG_SUCCESS;
+	return result;
 }
 
 DLLIMPORT int cfg_addlist(cfg_t *cfg, const char *name, unsigned int nvalues, ...)
 {
 	va_list ap;
+	int result;
 	cfg_opt_t *opt = cfg_getopt(cfg, name);
 
 	if (!opt || !is_set(CFGF_LIST, opt->flags)) {
@@ -2421,10 +2423,10 @@ DLLIMPORT int cfg_addlist(cfg_t *cfg, const char *name, unsigned int nvalues, ..
 	}
 
 	va_start(ap, nvalues);
-	cfg_addlist_internal(opt, nvalues, ap);
+	result = cfg_addlist_internal(opt, nvalues, ap);
 	va_end(ap);
 
-	return CFG_SUCCESS;
+	return result;
 }
 
 DLLIMPORT cfg_t *cfg_addtsec(cfg_t *cfg, const char *name, const char *title)
